@@ -324,6 +324,11 @@ def d2(db, rep):
     # D1f: no NULL is entered into the code-region table (a failed mapping must leave later compiles able to fall back)
     import importlib as _il
     _il.import_module("rules.c09").region_entries_nonnull(db, rep, "D1f-REGION-NONNULL")
+    # D1g: "a successful result leaves callable code": the short/long branch decision of the x86 assembler is exact
+    from x86enc import check_rel8_predicates
+    nr8 = check_rel8_predicates(db, rep, "D1g-REL8-EXACT")
+    if nr8 < 2:
+        raise AnalysisBroken("only %d rel8 range predicates found in the x86 assembler" % nr8)
     # D1d: slots carved out of a constant-size heap block lie inside it (instances on the unchanged tree: none; control: fixtures/carve.c)
     from rules_common import check_block_offsets
     rep.extra["block_offset_sites_judged"] = check_block_offsets(db, [g for g in db.all_functions() if g.relfile.startswith("orc/") or g.relfile.startswith("tools/")], rep, "D1d-BLOCK-OFFSET")
